@@ -93,3 +93,4 @@ package goja
 //@   ensures specIsNumber(self) ==> result == self || specIsNaNValue(self) && specIsNaNValue(result) [number-identity]
 //@   ensures specIsNumber(result) [returns-number]
 //@   assigns nothing if specPrimitiveNumeric(self)
+//@   assigns script
